@@ -235,12 +235,25 @@ impl Property for C06 {
                 case.set("via", 0);
             } else if case.param("via") == 3 {
                 let gaps: Vec<usize> = (0..case.pieces.len()).filter(|i| case.pieces[*i].kind == Kind::Gap).collect();
+                let mut junk_after = Vec::new();
                 for _ in 0..rng.range(1, 2) {
                     if !gaps.is_empty() {
                         let i = *rng.pick(&gaps);
                         let l = case.pieces[i].bytes.0.len();
-                        case.pieces[i].cut = Some(rng.below(l + 1));
+                        let after_rec = i > 0 && case.pieces[i - 1].kind == Kind::Rec;
+                        if after_rec && pol != Policy::Ignore && rng.chance(1, 3) && !junk_after.contains(&i) {
+                            // the next file starts with what other tools put in front of a
+                            // text file (a byte-order mark, say)
+                            case.pieces[i].cut = Some(l);
+                            junk_after.push(i);
+                        } else if !junk_after.contains(&i) {
+                            case.pieces[i].cut = Some(rng.below(l + 1));
+                        }
                     }
+                }
+                junk_after.sort();
+                for i in junk_after.into_iter().rev() {
+                    case.pieces.insert(i + 1, Piece::garbage(gen_header_junk(rng)));
                 }
                 let datas = split_files(&case);
                 case.files = datas.iter().map(|d| gen_file_plan(rng, d.len())).collect();
